@@ -1053,8 +1053,10 @@ func (f *Flow) brokerPublish() {
 			max = 300
 		}
 		tl := 1 + w.Tape.Draw("intopiclen", max)
-		if n := (tl - len(topic) + 1) / 2; n > 0 {
-			topic += strings.Repeat("/x", n) // (not a += loop: that is quadratic in allocation for 64 KiB topics)
+		if n := (tl - len(topic)) / 2; n > 0 {
+			// never beyond tl: 65,535 bytes is the longest string MQTT can
+			// carry (and not a += loop: that is quadratic in allocation)
+			topic += strings.Repeat("/x", n)
 		}
 	}
 	size := w.Tape.Draw("insize", 24)
